@@ -2,7 +2,7 @@
 # usage: sweep_seeded.sh <budget_s> [name-pattern]   runs, for every /verif/seeded/<Pxx-mN>, the check of its own property (and a few
 # neighbours) against a scratch copy of /repo/src with the change applied; /repo itself is not touched.
 budget="${1:-45}"; pat="${2:-}"
-out=/verif/seeded/SWEEP.txt
+out="${3:-/verif/seeded/SWEEP.txt}"
 : > "$out.tmp"
 declare -A EXTRA=( [C01]="C09" [C02]="C03 C20" [C03]="C05 C11" [C04]="C03 C11" [C05]="C16" [C08]="C01" [C09]="C01" [C10]="" [C11]="" [C13]="" [C14]="C01" [C15]="" [C16]="" [C17]="" [C20]="" )
 for d in /verif/seeded/*/; do
